@@ -11,7 +11,7 @@ LEAN_MODULE = "BibVerif.Props.C13"
 TECHNIQUE = ("Lean 4 proof about a one-pass scanner model (structural recursion over the characters), the partition "
              "function and the per-word case function wordCase (a fold over one word; case_spec: scanner invariant by "
              "induction over the loop); differential correspondence model vs names.py incl. the repo's BibTeX-derived corpus")
-RULE = ("corpus (D8/D14 witnesses; every name and co-author input of tests/middleware_tests/test_names.py, loaded from "
+RULE = ("entries built in code (no start line) in the error-containment cases; appending to the parts of one parsed name must not show in another; corpus (D8/D14 witnesses; every name and co-author input of tests/middleware_tests/test_names.py, loaded from "
         "the file - inputs only); every string of <= k tokens over {Aa, bb, 1, space, ',', ~, {, }, \\x, \\X, \\ (lone), "
         "\\', 'b c', tab} (k=5 quick: exhaustive for that alphabet; k=6 thorough); random structured names with special "
         "characters {\\'E}x, nested braces, control sequences, non-ASCII letters (classified by the running CPython); "
